@@ -14,9 +14,11 @@ MANIFEST = {
             "true of the numbers' whenever each level path leads to a level of the tree and construction and assertions are defined "
             "(no division by zero, operands are parameters of the model); then instance iff limits and all inequalities hold, otherwise "
             "the fit exception (limit first), ignoring is total; the comparison operators build assertions meaning the inequalities "
-            "written (simple, reflected, two-link chains); three-link chains, undefined operands and the path-argument route are shown "
-            "NOT to satisfy the statement by refuted witnesses. Tied to the code by bit-exact vm_compute correspondence: operators "
-            "(recipe -> built object), add_assertion (levels), verdict + FitException flag + instance of instance_from_vector "
+            "written: simple, reflected, and chains of ANY length (induction on how the chain was written: every link, each new operand "
+            "against the greatest / lowest operand so far; the repaired operators of 33cdc7f, the legacy three-link defect kept as "
+            "C03_chain3_legacy_refuted); undefined operands and the path-argument route are shown NOT to satisfy the statement by refuted "
+            "witnesses. Tied to the code by bit-exact vm_compute correspondence: operators (recipe -> built object and its remembered "
+            "ends), add_assertion (levels), verdict + FitException flag + instance of instance_from_vector "
             "strict/ignored and of instance_from_path_arguments, on generated models x assertion sets x vectors; plus a direct oracle",
     "note": "Trusted: Coq kernel + vm_compute; harness abstraction of live model / assertion objects; exception classes mapped to a small "
             "enum. Oracle-only (no tree node in the shared model): subtraction, unary minus, abs in operands; unit-vector and "
@@ -27,10 +29,9 @@ MANIFEST = {
 
 unhex = MG.unhex
 INF = float("inf")
-# Flip to True when proposed_fixes/C03-chain-further has been applied to /repo: the correspondence then uses the
-# prepared model variant (Model.check_case_chain_fix: CompoundAssertion can be compared again) and the finding
-# chain-3-links in known_findings/C03.json must be set to "fixed".
-CHAIN_FIX_APPLIED = False
+# finding chain-3-links was repaired in /repo by 33cdc7f (proposed_fixes/C03-chain-further): the model (Model.chain / denote)
+# describes the repaired operators; Model.check_case_legacy + Witness.C03_chain3_legacy_refuted keep the record.
+REPAIRED = {"chain-of-three-comparisons-ignores-earlier-links": "corpus/C03/chain-3-links.json"}
 COPS = {"<": "CLt", "<=": "CLe", ">": "CGt", ">=": "CGe"}
 
 
@@ -79,23 +80,28 @@ def gen_cmp(rng, npool, n_foreign=0):
     return {"k": "cmp", "op": rng.choice(["<", "<=", ">", ">="]), "l": l, "r": r}
 
 
+def prog_ends(a):
+    """(lowest, greatest) operand of a comparison / chain as written in the program."""
+    if a["k"] == "cmp":
+        return (a["l"], a["r"]) if a["op"] in ("<", "<=") else (a["r"], a["l"])
+    lo, hi = prog_ends(a["first"])
+    return (lo, a["other"]) if a["op"] in ("<", "<=") else (a["other"], hi)
+
+
 def gen_chain(rng, npool, first, n_foreign=0, last_const=None):
     op2 = rng.choice(["<", "<=", ">", ">="])
-    if first["k"] == "cmp":
-        # the operand compared again (greater side for </<=, lower side for >/>=) must not be a plain constant when
-        # `other` is one: `(p < 0.5) < 2.0` compares two floats and stores a bool inside a CompoundAssertion, which the
-        # library does not support (not a shape users write)
-        lower, greater = (first["l"], first["r"]) if first["op"] in ("<", "<=") else (first["r"], first["l"])
-        pivot = greater if op2 in ("<", "<=") else lower
-        other = gen_operand(rng, npool, n_foreign)
-        if pivot["t"] == "const" and other["t"] == "const":
-            other = {"t": "prior", "ref": rng.randrange(npool)}
-    else:
-        other = gen_operand(rng, npool, n_foreign)
-        if last_const is True and other["t"] != "const":
-            other = {"t": "const", "v": (rng.randint(-8, 12) / 4.0).hex()}
-        if last_const is False and not arith_like(other):
-            other = {"t": "prior", "ref": rng.randrange(npool)}
+    # the end of the chain that is compared again (greatest operand for </<=, lowest for >/>=) must not be a plain
+    # constant when `other` is one: `(p < 0.5) < 2.0` compares two floats and stores a bool inside a CompoundAssertion,
+    # which the library does not support (not a shape users write)
+    lo, hi = prog_ends(first)
+    pivot = hi if op2 in ("<", "<=") else lo
+    other = gen_operand(rng, npool, n_foreign)
+    if last_const is True and other["t"] != "const":
+        other = {"t": "const", "v": (rng.randint(-8, 12) / 4.0).hex()}
+    if last_const is False and not arith_like(other):
+        other = {"t": "prior", "ref": rng.randrange(npool)}
+    if pivot["t"] == "const" and other["t"] == "const":
+        other = {"t": "prior", "ref": rng.randrange(npool)}
     return {"k": "chain", "first": first, "op": op2, "other": other}
 
 
@@ -271,24 +277,22 @@ def same_recipe(a, rec, npool):
 
 
 def expected_built(a, npool):
-    """Assertion object expected for simple comparisons and two-link chains (None: not decided here)."""
+    """(assertion object, (lowest, greatest) operand) expected for comparisons and chains of any length."""
     k = a["k"]
     if k == "lit":
-        return {"k": "lit", "v": a["v"]}
+        return {"k": "lit", "v": a["v"]}, None
     if k == "cmp":
         l, r = expected_operand(a["l"], npool), expected_operand(a["r"], npool)
         if a["op"] in ("<", "<="):
-            return {"k": "lt" if a["op"] == "<" else "le", "l": l, "g": r}
-        return {"k": "lt" if a["op"] == ">" else "le", "l": r, "g": l}
-    if k == "chain" and a["first"]["k"] == "cmp":
-        first = expected_built(a["first"], npool)
+            return {"k": "lt" if a["op"] == "<" else "le", "l": l, "g": r}, (l, r)
+        return {"k": "lt" if a["op"] == ">" else "le", "l": r, "g": l}, (r, l)
+    if k == "chain":
+        first, (lo, hi) = expected_built(a["first"], npool)
         o = expected_operand(a["other"], npool)
         if a["op"] in ("<", "<="):
-            second = {"k": "lt" if a["op"] == "<" else "le", "l": first["g"], "g": o}
-        else:
-            second = {"k": "lt" if a["op"] == ">" else "le", "l": o, "g": first["l"]}
-        return {"k": "and", "a": first, "b": second}
-    return None
+            return {"k": "and", "a": first, "b": {"k": "lt" if a["op"] == "<" else "le", "l": hi, "g": o}}, (lo, o)
+        return {"k": "and", "a": first, "b": {"k": "lt" if a["op"] == ">" else "le", "l": o, "g": lo}}, (o, hi)
+    return None, None
 
 
 def same_assert(e, g):
@@ -540,29 +544,6 @@ def wrap_path(c, p):
     return ({"list": ["0"], "dict": ["w"]}.get(c.get("wrap")) or []) + list(p)
 
 
-def eval_assert_unchained(a, vec):
-    """What an assertion evaluates to when a chain of three links is NOT understood as three inequalities but as
-    `truth value of the first two links` compared with the last operand (the reading behind finding chain-3-links)."""
-    if a["k"] == "chain" and a["first"]["k"] == "chain" and arith_like(a["other"]):
-        r = float(eval_assert_unchained(a["first"], vec))
-        return cmp_values(a["op"], r, eval_operand(a["other"], vec))
-    return eval_assert(a, vec)
-
-
-def vector_classes(attached, vec):
-    """Labels computed from the case and the numbers (never from the outcome): chain-3-links applies only where reading the
-    three-link chain as `bool < number` changes the verdict."""
-    cls = set()
-    try:
-        for a in attached:
-            if a["a"]["k"] == "chain" and chain_links(a["a"]) >= 3 and arith_like(a["a"]["other"]) \
-                    and eval_assert(a["a"], vec) != eval_assert_unchained(a["a"], vec):
-                cls.add("chain-3-links")
-    except (ZeroDivisionError, Foreign, IndexError):
-        pass
-    return sorted(cls)
-
-
 def expected_verdicts(c, attached, vec, lims, npool):
     """-> (strict, ignored); each is ("ok",) | ("fit",) | ("length",) | ("not-ok", {exception names}) | ("error", {names})."""
     prog = c["program"]
@@ -625,17 +606,24 @@ def run(ctx):
         "level's assertions but check child levels -- modelled as run_paths, measured in distribution['paths-route'], no verdict)",
         "out of scope: Python's native chained comparison a < b < c (Python itself reduces it to the last link before the library sees it; "
         "generated, expected to behave as the last link only)",
-        "unsupported shape, expected to fail loudly: ((a<b)<c) < constant raises TypeError when written (no model is produced)",
+        "not generated: a comparison of two bare floats inside a chain, e.g. (p < 0.5) < 2.0 (Python stores a bool in the CompoundAssertion, "
+        "which raises AttributeError when evaluated; modelled as Err EAttr, Witness.and_of_literal_unsupported)",
         "subtraction, unary minus, abs in operands: oracle only (the shared tree has no unary node)",
         "exception_override config switch is off; jax is off",
     ]
     built = ctx.build()
     n = 110 if ctx.tier == "quick" else 700
     cases = gen_cases(ctx, n)
+    pins = {}
+    for sig, path in REPAIRED.items():
+        corpus = json.load(open(os.path.join(common.VERIF, path)))
+        pins[sig] = [dict(pc, pin=sig) for pc in corpus["cases"]]
     if ctx.replay:
         rp = json.load(open(ctx.replay))
         if rp.get("case"):
             cases = [rp["case"]]
+    else:
+        cases = [pc for sig in sorted(pins) for pc in pins[sig]] + cases      # pinned cases of repaired findings run first
     chunks = [ch for ch in (cases[i::common.NCPU] for i in range(common.NCPU)) if ch]
     outs = common.run_impl_parallel("c03_impl", [{"cases": ch} for ch in chunks], timeout=1200)
     results = [None] * len(cases)
@@ -663,16 +651,15 @@ def run(ctx):
         for a, at in zip(c["asserts"], r["attaches"]):
             links = chain_links(a["a"])
             if at["built"] is None:
-                if a["a"]["k"] == "chain" and links >= 3 and not arith_like(a["a"]["other"]):
-                    ctx.hist("unsupported-shape", "chain-3-links-constant-last: TypeError when written")
-                    continue
                 problems.append("comparison raised TypeError: %s" % at.get("msg"))
                 continue
             if not same_recipe(a["a"], at["recipe"], npool):
                 problems.append("operands")
-            eb = expected_built(a["a"], npool)
+            eb, ee = expected_built(a["a"], npool)
             if eb is not None and not same_assert(eb, at["built"]):
                 problems.append("assertion object")
+            if ee is not None and (at.get("ends") is None or not (same_operand(ee[0], at["ends"][0]) and same_operand(ee[1], at["ends"][1]))):
+                problems.append("remembered ends of the chain")
             ctx.hist("assertion-shape", {"lit": "literal", "native": "python-native-chain"}.get(a["a"]["k"], "%d-link" % links))
             if a["a"]["k"] == "lit" and a["a"]["v"]:
                 continue       # add_assertion(True) is dropped
@@ -694,7 +681,8 @@ def run(ctx):
             continue
         ctx.hist("wrap", c.get("wrap") or "none")
         in_model = MG.tree_ok_for_model(r["tree"]) and tree_in_model(r["tree"]) \
-            and all(recipe_representable(at["recipe"]) and (at["built"] is None or assertion_representable(at["built"])) for at in r["attaches"]) \
+            and all(recipe_representable(at["recipe"]) and (at["built"] is None or assertion_representable(at["built"]))
+                    and all(operand_representable(x) for x in (at.get("ends") or [])) for at in r["attaches"]) \
             and all(assertion_representable(x) for l in r["levels"] for x in l["asserts"])
         for vi, (v, run_) in enumerate(zip(c["vectors"], r["runs"])):
             vec = [unhex(x) for x in v]
@@ -732,7 +720,7 @@ def run(ctx):
                 msg = "a numpy vector gives %s, the same list gives %s" % (show(run_["numpy"]), show(s))
             if msg:
                 ctx.oracle["failures"] += 1
-                ctx.failure("oracle", msg, dict(c, vectors=[v], units=[], n_random=0), classes=vector_classes(attached, vec), impl=run_)
+                ctx.failure("oracle", msg, dict(c, vectors=[v], units=[], n_random=0), impl=run_)
             if "paths" in run_:
                 p = run_["paths"]
                 ctx.hist("paths-route", "same verdict as the vector route" if show(p) == show(s) else
@@ -746,9 +734,10 @@ def run(ctx):
                 ctx.hist("correspondence", "compared")
                 atts = []
                 for a, at in zip(c["asserts"], r["attaches"]):
-                    atts.append("{| at_level := %s; at_recipe := %s; at_built := %s |}" % (
+                    atts.append("{| at_level := %s; at_recipe := %s; at_built := %s; at_ends := %s |}" % (
                         MG.coq_path(wrap_path(c, a["level"])), coq_recipe(at["recipe"]),
-                        "None" if at["built"] is None else "(Some %s)" % coq_assert(at["built"])))
+                        "None" if at["built"] is None else "(Some %s)" % coq_assert(at["built"]),
+                        "None" if not at.get("ends") else "(Some (%s, %s))" % (MG.coq_node(at["ends"][0]), MG.coq_node(at["ends"][1]))))
                 coq_cases.append("{| c_tree := %s; c_lims := %s; c_attach := %s; c_levels := %s; c_vec := %s; c_strict := %s; "
                                  "c_ignored := %s; c_paths := %s |}" % (
                                      MG.coq_node(r["tree"]),
@@ -774,7 +763,7 @@ def run(ctx):
             if not verdict_matches(exp_s, s):
                 ctx.oracle["failures"] += 1
                 ctx.failure("oracle", "instance_from_unit_vector verdict %s, expected %s" % (show(s), exp_s),
-                            dict(c, vectors=[], units=[u], n_random=0), classes=vector_classes(attached, vec), impl=ur)
+                            dict(c, vectors=[], units=[u], n_random=0), impl=ur)
             elif not verdict_matches(exp_i, ur["ignored"]):
                 ctx.oracle["failures"] += 1
                 ctx.failure("oracle", "instance_from_unit_vector(ignore_prior_limits=True) gave %s, expected %s" % (show(ur["ignored"]), exp_i),
@@ -801,8 +790,7 @@ def run(ctx):
                 ctx.hist("random-instance", "checked-%d-of-%d-values" % (len(drawn), npool) if len(drawn) < npool else "checked-all-values")
                 if msg:
                     ctx.oracle["failures"] += 1
-                    ctx.failure("oracle", msg, dict(c, vectors=[], units=[]),
-                                classes=vector_classes(attached, [drawn[k] for k in range(npool)]) if len(drawn) == npool else [], impl=rr)
+                    ctx.failure("oracle", msg, dict(c, vectors=[], units=[]), impl=rr)
             elif not (rr["v"] in ("assert", "limit") and rr.get("fit")) and not (
                     rr["v"] == "error" and rr.get("exc") in ("KeyError", "ZeroDivisionError")
                     and (c.get("n_foreign") or "/" in json.dumps(c["asserts"]) + json.dumps(prog["root"]))):
@@ -813,7 +801,7 @@ def run(ctx):
     if os.path.exists(os.path.join(common.COQ, "C03", "Model.vo")):
         hdr = ctx.header(["Common.PyFloat", "Model"]).replace("From PAFC03 Require Import Model.",
                                                               "From PAFC01 Require Import ModelTree.\nFrom PAFC03 Require Import Model.")
-        bad, log = ctx.eval_cases(hdr, "case", "check_case_chain_fix" if CHAIN_FIX_APPLIED else "check_case", coq_cases, shard=60)
+        bad, log = ctx.eval_cases(hdr, "case", "check_case", coq_cases, shard=60)
         for b in (bad or [])[:5]:
             i, vi = coq_ref[b]
             c = cases[i]
@@ -822,3 +810,19 @@ def run(ctx):
                         broken={"kind": "correspondence", "name": "C03.check_case"}, found_input=False)
     else:
         ctx.obligation("correspondence:cases", "correspondence", False, "Model.vo not built")
+    # repaired findings must stay repaired: the pinned cases pass oracle and correspondence and give the pinned verdicts
+    for sig in sorted(pins):
+        if ctx.replay:
+            ctx.obligation("regression:" + sig, "regression", True, "not evaluated in a replay run")
+            continue
+        bad = ["violation: " + v["what"][:120] for v in ctx.violations if v.get("case") and v["case"].get("pin") == sig]
+        n = 0
+        for c, r in zip(cases, results):
+            if c.get("pin") != sig:
+                continue
+            got = [show(x["strict"]) for x in r["ok"]["runs"]] if "ok" in r else ["driver: " + r.get("exc", "?")]
+            n += len(got)
+            if got != c["expect"]:
+                bad.append("verdicts %s, pinned %s" % (got, c["expect"]))
+        ctx.obligation("regression:" + sig, "regression", not bad and n > 0,
+                       "; ".join(bad)[:600] if bad else "%d pinned vectors of %s keep their verdicts" % (n, REPAIRED[sig]))
